@@ -207,6 +207,10 @@ TABLES = [
     ("f8", "f8", (-1e6, 0.0, 10.0, 1e6), (0.0, 1.0, 3.0, -2.0)),
     # same size and end points as table 1, other interior spacing (a bracket cache keyed by size/ends must not mix them)
     ("f8", "f8", (0.0, 0.6, 1.1, 1.2, 1.9, 2.5), (1.0, 3.0, -2.0, 0.5, 4.0, 4.0)),
+    # unevenly spaced tables that look regular to a cheap test (first step == last step == mean step, interior uneven)
+    ("f8", "f8", (0.0, 1.0, 1.5, 3.5, 4.0, 5.0), (0.0, 3.0, -1.0, 2.0, 5.0, 1.0)),
+    ("f8", "f8", (2.0, 4.0, 5.0, 6.0, 7.0, 8.0, 14.0, 16.0), (1.0, 0.0, 4.0, -2.0, 3.0, 9.0, 0.5, 2.0)),
+    ("f8", "f8", (0.0, 1.0, 1.25, 2.75, 3.0, 4.0), (1.0, 2.0, 10.0, -3.0, 0.0, 1.0)),
 ]
 
 NPTS = [1, 2, 3, 4, 5, 8, 16, 33, 64, 100, 200]
